@@ -9,6 +9,16 @@ CLAIMED = {
         text="Machine-checked Coq proofs (round-trip for every set history, fragment shape, standard-reader reassembly, parser totality and parse-only-input) about a hand-written Gallina model; the model is tied to /repo's working tree on every run by executing the extracted model and the real util package on the same set histories and parser inputs and diffing observations; an independent Python oracle evaluates the property on the implementation's own output.",
         design="5/C16",
         note="Trusts: Coq kernel, extraction (ExtrOcamlBasic), OCaml/Go/Python harness, the correspondence sample (model faithful beyond it is not proved). Theorems closed under the global context (no axioms)."),
+    "C18": dict(
+        technique="Coq refinement proof (file-system model of fileStorage/database refines a history-defined map, for all histories and all entity names) + extracted-model vs Go differential correspondence on real temp directories",
+        text="Theorems: Get = last Set not deleted for every history and key (keys identified after the ':' sanitiser), listing = exactly the live entries, the pairing database is a map over arbitrary-byte entity names (hex key derivation injective, sanitiser-stable, never a temp name). The model is run against the real util/db packages on random histories with forced shorter overwrites and non-UTF-8 names; an independent in-memory map is the implementation-side oracle.",
+        design="5/C18",
+        note="Trusts Coq kernel, extraction, harness; POSIX semantics of open/write/rename as modelled; encoding/json round trip exercised not proved; keys ending in '.tmp', containing '/', empty, '.', '..' are outside the theorem (stated as key_ok). No axioms."),
+    "C19": dict(
+        technique="Coq proof over all crash prefixes of the write's file-system operation sequence + kill experiments at every verif-tagged crash point + strace tie of the operation sequence",
+        text="Theorem C19_atomic: for every directory state, key, value and crash index the key holds old-or-new and other files are untouched; C19_sequences lifts it to SaveEntity and the three-Set configuration rewrite. Tie: a child process built from /repo with -tags verif is SIGKILLed at each of the 6 crash points per Set (all old/new length classes, sequences, SaveEntity, full NewIPTransport restart), the directory is re-read by a fresh store and compared with the extracted model's crash state and with the property oracle; strace confirms the system-call sequence equals the model's set_ops.",
+        design="5/C19",
+        note="Process-kill semantics only (no power-loss reordering); a single write(2) is not torn by SIGKILL; crash points are the hook calls of commit a17b149. No axioms."),
 }
 PENDING_REASON = "not yet claimed: model/theorems for this property are still being built in this development (see DESIGN.md section 10 for the order of work)"
 
